@@ -39,7 +39,12 @@ static inline struct vs_ulock vs_ulock_ctor(struct vs_mutex *m)
 static inline void vs_ulock_dtor(struct vs_ulock *l) { l->m->held = 0; }
 /* std::vector<std::shared_ptr<Request>>: n attached continuations, visited in index order */
 struct vs_reqvec { size_t n; };
-struct vs_tuple2 { int v[2]; };      /* std::tuple<int, int> */
+struct vs_tuple2 { int v[2]; };
+/* std::vector<int>: n elements at p */
+struct vs_intvec { int *p; size_t n; };
+#define INTVEC_MAX ((size_t)1 << 20)
+static inline int *vs_intvec_at(struct vs_intvec *v, size_t i) { __CPROVER_assert(i < v->n, "std::vector<int>::operator[] within size()"); return &v->p[i]; }
+size_t g_m; int g_m_old;     /* ghost: an arbitrary position of the result vector and what it held */      /* std::tuple<int, int> */
 #define VS_EXC_RETHROW 9      /* Async::Private::InternalRethrow: the marker by which a rejection handler forwards the rejection */
 #define VS_TID_INT 1     /* TypeId::of<T>(): one identifier per type */
 #define VS_TID_TUPLE 2
@@ -159,7 +164,9 @@ static inline void vs_req_reject(size_t req, struct Pistache_Async_Private_Core 
 CORE = 'struct Pistache_Async_Private_Core *'
 RIT = '__gnu_cxx::__normal_iterator<std::shared_ptr<Pistache::Async::Private::Request>*, std::vector<std::shared_ptr<Pistache::Async::Private::Request>>>'
 RV = 'std::vector<std::shared_ptr<Pistache::Async::Private::Request>>'
-TYPES = {'std::tuple<int, int>': 'struct vs_tuple2', 'Pistache::TypeId': 'int', 'std::mutex': 'struct vs_mutex', 'std::exception_ptr': 'int', 'std::__exception_ptr::exception_ptr': 'int',
+TYPES = {'Pistache::Async::Impl::WhenAllRange<int, std::vector<int>>::WhenContinuation<int>::D': 'struct Pistache_Async_Impl_WhenAllRange_DataT_int__void_ *', 'std::shared_ptr<DataT<int>>': 'struct Pistache_Async_Impl_WhenAllRange_DataT_int__void_ *',
+         'std::vector<int>': 'struct vs_intvec', 'Pistache::Async::Impl::WhenAllRange<int, std::vector<int>>::Data': 'struct Pistache_Async_Impl_WhenAllRange_Data',
+         'std::tuple<int, int>': 'struct vs_tuple2', 'Pistache::TypeId': 'int', 'std::mutex': 'struct vs_mutex', 'std::exception_ptr': 'int', 'std::__exception_ptr::exception_ptr': 'int',
          'std::shared_ptr<Private::Core>': CORE, 'std::shared_ptr<Pistache::Async::Private::Core>': CORE, 'std::shared_ptr<Core>': CORE,
          'std::shared_ptr<Pistache::Async::Private::CoreT<int>>': CORE, 'shared_ptr<Pistache::Async::Private::CoreT<int>>': CORE, 'shared_ptr<_NonArray<Pistache::Async::Private::CoreT<int>>>': CORE,
          'std::shared_ptr<CoreT<int>>': CORE,
@@ -197,8 +204,9 @@ GUARDED_STUBS = {'struct vs_ulock': 'vs_ulock_dtor'}
 THROWING = ['vs_req_resolve', 'vs_req_reject', 'vs_core_construct', 'vs_do_resolve', 'vs_do_reject', 'vs_user_resolve', 'vs_core_value']
 ALWAYS_REPLACE = []
 OPAQUE = []
-RECORDS = ['Pistache::Async::VerifInst::AddOne', 'Pistache::Async::Private::impl::Continuation<int, Pistache::Async::VerifInst::AddOne, Pistache::Async::Private::Throw, int (int)>', 'Pistache::Async::Private::Request', 'Pistache::Async::Private::Continuable<int>', 'Pistache::Async::Promise<int>', 'Pistache::Async::PromiseBase', 'Pistache::Async::Private::Throw', 'Pistache::Async::Private::Core', 'Pistache::Async::Resolver', 'Pistache::Async::Rejection', 'Pistache::Async::Impl::All::Data', 'Pistache::Async::Impl::Any::Data']
+RECORDS = ['Pistache::Async::Impl::WhenAllRange::Data', 'Pistache::Async::Impl::WhenAllRange::DataT<int, void>', 'Pistache::Async::Impl::WhenAllRange::WhenContinuation<int, void>', 'Pistache::Async::VerifInst::AddOne', 'Pistache::Async::Private::impl::Continuation<int, Pistache::Async::VerifInst::AddOne, Pistache::Async::Private::Throw, int (int)>', 'Pistache::Async::Private::Request', 'Pistache::Async::Private::Continuable<int>', 'Pistache::Async::Promise<int>', 'Pistache::Async::PromiseBase', 'Pistache::Async::Private::Throw', 'Pistache::Async::Private::Core', 'Pistache::Async::Resolver', 'Pistache::Async::Rejection', 'Pistache::Async::Impl::All::Data', 'Pistache::Async::Impl::Any::Data']
 ENUMS = ['Pistache::Async::State']
+RECORD_ALIASES = {'std::__shared_ptr_access<Pistache::Async::Impl::WhenAllRange<int, std::vector<int>>::DataT<int>, __gnu_cxx::_S_atomic, false, false>::element_type': 'Pistache::Async::Impl::WhenAllRange::DataT<int, void>'}
 EXCEPTIONS = {'Pistache::Async::Private::InternalRethrow': 'VS_EXC_RETHROW', 'Pistache::Async::Error': 'VS_EXC_RUNTIME_ERROR', 'Pistache::Async::BadType': 'VS_EXC_RUNTIME_ERROR'}
 CATCH_TEST = {'Pistache::Async::Private::InternalRethrow': '$ == VS_EXC_RETHROW'}
 def THROW_PAYLOAD(L, t, ce):
@@ -210,7 +218,7 @@ DEFAULT_RULE = True
 OPAQUE_UNKNOWN = True
 OPAQUE_ANY = True
 DEVIRT = {}
-for _f in ('Continuation_AddOne_finishResolve', 'Continuation_AddOne_doResolve', 'Continuation_AddOne_doReject', 'Promise_int_isFulfilled', 'Promise_int_isRejected', 'Continuable_int_resolve', 'Continuable_int_reject', 'Promise_int_then_AddOne', 'Resolver_call_tuple', 'Resolver_call_any', 'Rejection_call_eptr', 'Rejection_call_error', 'Resolver_call_int', 'Resolver_call_void', 'Continuable_int_reject', 'Continuable_int_resolve', 'Promise_int_then'):
+for _f in ('Resolver_call_vector', 'Continuation_AddOne_finishResolve', 'Continuation_AddOne_doResolve', 'Continuation_AddOne_doReject', 'Promise_int_isFulfilled', 'Promise_int_isRejected', 'Continuable_int_resolve', 'Continuable_int_reject', 'Promise_int_then_AddOne', 'Resolver_call_tuple', 'Resolver_call_any', 'Rejection_call_eptr', 'Rejection_call_error', 'Resolver_call_int', 'Resolver_call_void', 'Continuable_int_reject', 'Continuable_int_resolve', 'Promise_int_then'):
     DEVIRT[(_f, 'reject')] = 'vs_req_reject'
     DEVIRT[(_f, 'resolve')] = 'vs_req_resolve'
     DEVIRT[(_f, 'isVoid')] = 'vs_core_isvoid'
@@ -443,6 +451,34 @@ FUNCTIONS += [
         invariant 0
         decreases $END - $BEGIN"""]},
 ]
+
+# ---- whenAll over an iterator range: the continuation attached to input number `index`
+WD = 'this->data'
+WDC = 'this->data->vs_base_Data.reject.core_'
+FUNCTIONS += [
+    {'q': 'Pistache::Async::Resolver::operator()', 'sig': 'bool (std::vector<int> &) const', 'c': 'Resolver_call_vector', 'contract': RES_CONTRACT(False), 'loops': [RES_LOOP]},
+    {'q': 'Pistache::Async::Impl::WhenAllRange::WhenContinuation::operator()', 'sig_exact': 'void (const int &) const', 'c': 'WhenAllRange_int_cont_call',
+     'types': {'Pistache::Async::Impl::WhenAllRange<int, std::vector<int>>::WhenContinuation<int>::D': 'struct Pistache_Async_Impl_WhenAllRange_DataT_int__void_ *', 'std::shared_ptr<DataT<int>>': 'struct Pistache_Async_Impl_WhenAllRange_DataT_int__void_ *',
+               'std::vector<int>': 'struct vs_intvec', 'Results': 'struct vs_intvec'},
+     'stubs': {'operator->|std::__shared_ptr_access<Pistache::Async::Impl::WhenAllRange<int, std::vector<int>>::DataT<int>, __gnu_cxx::_S_atomic, false, false>': {'expr': '($0)'},
+               'operator[]|std::vector<int>': {'expr': '(*vs_intvec_at(&($0), $1))'}},
+     'contract': """
+        requires FRESH(this, sizeof(*this)) && FRESH(val, sizeof(*val)) && FRESH(%(d)s, sizeof(*%(d)s)) && FRESH(%(c)s, sizeof(*%(c)s)) && PTR_EQ(%(d)s->vs_base_Data.resolve.core_, %(c)s)
+        requires CORE_OK(%(c)s) && g_exp_core == %(c)s && ALL_INV((&%(d)s->vs_base_Data)) && !g_type_void && GHOST0 && (%(c)s->requests.n == 0 || g_k < %(c)s->requests.n)
+        # the result vector was sized to the number of inputs and this continuation belongs to input number `index` (WhenAllRange::operator())
+        requires %(d)s->results.n == %(d)s->vs_base_Data.total && %(d)s->results.n <= INTVEC_MAX && FRESH(%(d)s->results.p, %(d)s->results.n * sizeof(int)) && this->index < %(d)s->vs_base_Data.total
+        requires g_m < %(d)s->results.n && g_m_old == %(d)s->results.p[g_m]
+        requires !%(d)s->vs_base_Data.rejected ==> %(d)s->vs_base_Data.resolved < %(d)s->vs_base_Data.total
+        assigns """ % {'d': WD, 'c': WDC} + GH + """, %(d)s->vs_base_Data.resolved, %(d)s->vs_base_Data.mtx, __CPROVER_object_whole(%(d)s->results.p), %(c)s->state, %(c)s->allocated, %(c)s->mtx
+        ensures OLD(%(d)s->vs_base_Data.rejected) ==> (vs_exc == 0 && %(d)s->vs_base_Data.resolved == OLD(%(d)s->vs_base_Data.resolved) && g_res_calls == 0 && %(d)s->results.p[g_m] == g_m_old)
+        # C11: all values in ARGUMENT order -- the value of input `index` goes to position `index`, every other position (g_m: arbitrary) keeps
+        # its value, the vector keeps its length
+        ensures !OLD(%(d)s->vs_base_Data.rejected) ==> (%(d)s->results.p[this->index] == *val && (g_m != this->index ==> %(d)s->results.p[g_m] == g_m_old) && %(d)s->vs_base_Data.resolved == OLD(%(d)s->vs_base_Data.resolved) + 1)
+        ensures %(d)s->results.n == OLD(%(d)s->results.n)
+        ensures (!OLD(%(d)s->vs_base_Data.rejected) && OLD(%(d)s->vs_base_Data.resolved) + 1 < %(d)s->vs_base_Data.total) ==> (vs_exc == 0 && %(c)s->state == ST_PENDING && g_res_calls == 0)
+        ensures (!OLD(%(d)s->vs_base_Data.rejected) && OLD(%(d)s->vs_base_Data.resolved) + 1 == %(d)s->vs_base_Data.total && vs_exc == 0) ==> (%(c)s->state == ST_FULFILLED && g_constructs == 1 && g_res_calls == %(c)s->requests.n)
+        ensures g_rej_calls == 0 && g_k_res <= 1 && !%(d)s->vs_base_Data.mtx.held""" % {'d': WD, 'c': WDC}},
+]
 PROOFS = [
     {'name': 'Resolver_call_value', 'enforce': 'Resolver_call_int', 'loops': 'contracts', 'props': ['C11']},
     {'name': 'Resolver_call_void', 'enforce': 'Resolver_call_void', 'loops': 'contracts', 'props': ['C11']},
@@ -460,5 +496,7 @@ PROOFS = [
     {'name': 'Continuation_finishResolve', 'enforce': 'Continuation_AddOne_finishResolve', 'loops': 'contracts', 'props': ['C11']},
     {'name': 'Continuation_doResolve', 'enforce': 'Continuation_AddOne_doResolve', 'replace': ['Continuation_AddOne_finishResolve'], 'props': ['C11']},
     {'name': 'Continuation_doReject', 'enforce': 'Continuation_AddOne_doReject', 'replace': ['Throw_call'], 'loops': 'contracts', 'props': ['C11']},
+    {'name': 'Resolver_call_vector', 'enforce': 'Resolver_call_vector', 'loops': 'contracts', 'props': ['C11']},
+    {'name': 'WhenAllRange_continuation', 'enforce': 'WhenAllRange_int_cont_call', 'replace': ['Resolver_call_vector'], 'props': ['C11']},
     {'name': 'Any_reject', 'enforce': 'Pistache_Async_Impl_Any_reject', 'replace': ['Rejection_call_eptr'], 'props': ['C11']},
 ]
